@@ -425,6 +425,36 @@ fn big_gsub(distance: usize) -> Vec<u8> {
     g
 }
 
+/// GSUB with one single-substitution lookup per feature (glyph 1 -> 2 + k for the k-th feature) and a script list built by
+/// the caller. `features`: tags in the order given (must be sorted by tag for a conforming table).
+fn gsub_one_lookup_per_feature(script_list: &[u8], features: &[u32]) -> Vec<u8> {
+    let n = features.len();
+    let mut fl = W::new();
+    fl.u16(n as u16);
+    for (k, t) in features.iter().enumerate() {
+        fl.tag(*t).u16((2 + 6 * n + 6 * k) as u16);
+    }
+    for k in 0..n {
+        fl.u16(0).u16(1).u16(k as u16);
+    }
+    let fl = fl.done();
+    let mut ll = W::new();
+    ll.u16(n as u16);
+    for k in 0..n {
+        ll.u16((2 + 2 * n + 20 * k) as u16);
+    }
+    for k in 0..n {
+        ll.u16(1).u16(0).u16(1).u16(8); // type 1, flag 0, 1 subtable at 8
+        ll.u16(1).u16(6).i16(1 + k as i16).u16(1).u16(1).u16(1); // SingleSubst 1: coverage at 6, delta 1+k; Coverage: [glyph 1]
+    }
+    let ll = ll.done();
+    let h = 10usize;
+    let mut g = W::new();
+    g.u16(1).u16(0).u16(h as u16).u16((h + script_list.len()) as u16).u16((h + script_list.len() + fl.len()) as u16);
+    g.bytes(script_list).bytes(&fl).bytes(&ll);
+    g.done()
+}
+
 fn fvar_one_axis() -> Vec<u8> {
     let mut w = W::new();
     w.u16(1).u16(0).u16(16).u16(2).u16(1).u16(20).u16(0).u16(8);
@@ -563,6 +593,59 @@ fn subjects(ctx: &Ctx) -> Vec<Subject> {
             Op::Tables,
         ];
         v.push(Subject { name: format!("synthetic-{}", nm), data, filter: None, ops });
+    }
+    // 8. Features::Custom with tags that have no FeatureMask bit (ss01, ss02, cv01) or share one (vert / vrt2): any cache
+    //    of custom lookup lists must tell them apart
+    {
+        let cmap = [(b'a' as u32, 1u16), (b'b' as u32, 2), (0x25CC, 7)];
+        let (ss01, ss02, cv01) = (otmodel::tag(b"ss01"), otmodel::tag(b"ss02"), otmodel::tag(b"cv01"));
+        let (vert, vrt2) = (otmodel::tag(b"vert"), otmodel::tag(b"vrt2"));
+        let mut sl = W::new();
+        sl.u16(1).tag(tag::DFLT).u16(8);
+        sl.u16(4).u16(0).u16(0).u16(0xFFFF).u16(4).u16(0).u16(1).u16(2).u16(3);
+        let gsub = gsub_one_lookup_per_feature(&sl.done(), &[ss01, ss02, vert, vrt2]);
+        let data = otmodel::tables::minimal_font(8, &cmap, &[(tag::GSUB, gsub)]);
+        let shape = |feats: Vec<u32>| Op::Shape { text: "ab", script: tag::DFLT, lang: None, feats: FeatSel::Custom(feats), tuple: None, kerning: true };
+        let ops = vec![
+            shape(vec![ss01]),
+            shape(vec![ss02]),
+            shape(vec![ss01, ss02]),
+            shape(vec![ss02, ss01]),
+            shape(vec![vert]),
+            shape(vec![vrt2]),
+            shape(vec![cv01]),
+            shape(vec![]),
+            Op::Shape { text: "ab", script: tag::DFLT, lang: None, feats: FeatSel::Mask(dflt), tuple: None, kerning: true },
+        ];
+        v.push(Subject { name: "synthetic-custom-features-without-mask-bits".into(), data, filter: None, ops });
+    }
+    // 9. a complex-script GSUB whose default LangSys lists a feature index beyond the FeatureList (building the lookup list
+    //    fails) next to a language system that is fine: the failure must be reported every time, and must not disturb the
+    //    lists cached for other keys
+    {
+        let cmap = [(0xE01u32, 1u16), (0xE02, 2), (0x25CC, 5)];
+        let pal = otmodel::tag(b"PAL ");
+        let thai = otmodel::tag(b"thai");
+        let mut sl = W::new();
+        sl.u16(2).tag(tag::DFLT).u16(14).tag(thai).u16(14 + 12);
+        sl.u16(4).u16(0).u16(0).u16(0xFFFF).u16(1).u16(0); // DFLT: default LangSys, feature 0 (12 bytes)
+        // thai script table: defaultLangSys at 10, 1 LangSysRecord (PAL at 18)
+        sl.u16(10).u16(1).tag(pal).u16(18);
+        sl.u16(0).u16(0xFFFF).u16(1).u16(99); // default LangSys: feature index 99 does not exist
+        sl.u16(0).u16(0xFFFF).u16(1).u16(1); // PAL: feature 1
+        let gsub = gsub_one_lookup_per_feature(&sl.done(), &[tag::CCMP, tag::LIGA]);
+        let data = otmodel::tables::minimal_font(6, &cmap, &[(tag::GSUB, gsub)]);
+        let shape = |text, script, lang, feats| Op::Shape { text, script, lang, feats, tuple: None, kerning: true };
+        let ops = vec![
+            shape("\u{E01}\u{E02}", thai, None, FeatSel::Mask(dflt)),
+            shape("\u{E01}\u{E02}", thai, Some(pal), FeatSel::Mask(dflt)),
+            shape("\u{E01}", thai, Some(pal), FeatSel::Mask(dflt | smcp)),
+            shape("\u{E01}\u{E02}", thai, Some(AAA), FeatSel::Mask(dflt)),
+            shape("\u{E01}\u{E02}", tag::DFLT, None, FeatSel::Mask(dflt)),
+            shape("\u{E01}", thai, None, FeatSel::Custom(vec![tag::LIGA])),
+            Op::Tables,
+        ];
+        v.push(Subject { name: "synthetic-broken-default-langsys-complex-script".into(), data, filter: None, ops });
     }
     // 6. fonts that load but carry a lazily loaded table that is present and unparsable: the first query reports the
     //    parse error; every later query must report it again (a failed load must not be remembered as "table absent")
